@@ -544,8 +544,19 @@ impl Axecutor {
         data: Vec<u8>,
         name: Option<String>,
     ) -> Result<(), AxError> {
+        if start.checked_add(data.len() as u64).is_none() {
+            return Err(AxError::from(format!(
+                "cannot create memory area {} with start={:#x}, length={:#x}: end address does not fit into 64 bits",
+                name.unwrap_or_else(|| "<unnamed>".to_string()),
+                start,
+                data.len()
+            )));
+        }
+
         for area in &self.state.memory {
-            if start >= area.start && start < area.start + area.length {
+            if (start >= area.start && start < area.start + area.length)
+                || (area.start >= start && area.start < start + data.len() as u64)
+            {
                 let overlap_name = area
                     .name
                     .to_owned()
